@@ -1,6 +1,7 @@
 //! Group driver: runs the REAL kanidm code and records observed traces (ndjson) which TLC
 //! validates against the TLA+ specifications in /verif/spec. See /verif/DESIGN.md.
 use kvc::util::Opts;
+mod c07;
 
 fn main() {
     let args: Vec<String> = std::env::args().collect();
@@ -10,8 +11,8 @@ fn main() {
     }
     let opts = Opts::parse(&args[2..]);
     let rc = match args[1].as_str() {
+        "c07" => c07::run(&opts),
         other => {
-            let _ = &opts;
             eprintln!("unknown subcommand {other}");
             2
         }
